@@ -15,3 +15,33 @@ package runner
 //@   effect awaits-task
 //@ func Runner.Finish
 //@   nomod
+
+// ---- C06 / C07: commands run one at a time, in list order, and stop at the first failure
+// compiled: the set of jobs produced by CompileCommand (closed under Next)
+//@ ghost compiled map[*executor.Job]bool
+//@ pred compiledClosed() := forall j *executor.Job :: compiled[j] ==> j != nil && j.Vars != nil && (j.Next != nil ==> compiled[j.Next])
+// passed: a command's outcome lets the task continue
+//@ pred passed(e error, t *task.Task) := e == nil || (exitOK(e) && t.AllowFailure)
+
+//@ func (*TaskRunner).execute
+//@   requires r != nil && t != nil && (job != nil ==> compiled[job]) && compiledClosed()
+//@   modifies t.Start, t.End, t.ExitCode, t.Errored, t.Error, runN, runJob, runErr, executor.Job.Dir, executor.DefaultExecutor.*
+//@   ensures #log-prefix runN >= old(runN) && (forall i int :: i < old(runN) ==> runJob[i] == old(runJob[i]) && runErr[i] == old(runErr[i]))
+//@   ensures #C06.nothing-to-run job == nil ==> runN == old(runN) && result == nil
+//@   ensures #C06.first runN > old(runN) ==> runJob[old(runN)] == job
+//@   ensures #C06.consecutive forall i int :: old(runN) <= i && i + 1 < runN ==> runJob[i+1] == runJob[i].Next
+//@   ensures #C06.all-but-last-pass forall i int :: old(runN) <= i && i + 1 < runN ==> passed(runErr[i], t)
+//@   ensures #C06.success-runs-all result == nil && job != nil ==> runN > old(runN) && runJob[runN-1].Next == nil && passed(runErr[runN-1], t)
+//@   ensures #C06.failure-stops result != nil && exitOK(result) ==> runN > old(runN) && !passed(runErr[runN-1], t) && result == runErr[runN-1]
+//@   ensures #C07.failure-marks-task result != nil ==> (t.Errored && t.Error == result) || (runN == old(runN) && t.Errored == old(t.Errored))
+//@   ensures #C07.exit-code result != nil && exitOK(result) ==> t.ExitCode == exitStatus(result) && t.Errored && t.Error == result
+//@   ensures #C07.success-keeps-flag result == nil ==> t.Errored == old(t.Errored) && t.Error == old(t.Error)
+//@   loop 1 "nextJob != nil"
+//@     invariant #same r == r0 && t == t0 && job == job0 && exec != nil && t != nil && compiledClosed()
+//@     invariant #in-list nextJob != nil ==> compiled[nextJob]
+//@     invariant #flags t.Errored == old(t.Errored) && t.Error == old(t.Error) && t.AllowFailure == old(t.AllowFailure)
+//@     invariant #log-prefix runN >= old(runN) && (forall i int :: i < old(runN) ==> runJob[i] == old(runJob[i]) && runErr[i] == old(runErr[i]))
+//@     invariant #C06.first runN > old(runN) ==> runJob[old(runN)] == job
+//@     invariant #C06.consecutive forall i int :: old(runN) <= i && i + 1 < runN ==> runJob[i+1] == runJob[i].Next
+//@     invariant #C06.all-pass forall i int :: old(runN) <= i && i < runN ==> passed(runErr[i], t)
+//@     invariant #C06.position (runN == old(runN) ==> nextJob == job) && (runN > old(runN) ==> nextJob == runJob[runN-1].Next)
